@@ -57,6 +57,7 @@ def explore(job: Job, timeout_ms=10000, max_paths=50000):
     covers = set()
     engine_error = None
     unknown_feas = 0
+    events = set()
     while work:
         prefix = work.pop()
         c = Ctx(prefix, timeout_ms)
@@ -76,6 +77,7 @@ def explore(job: Job, timeout_ms=10000, max_paths=50000):
             break
         paths += 1
         unknown_feas += c.unknown_feasibility
+        events.update(e for e in c.events if isinstance(e, tuple))
         for k in range(len(prefix), len(c.decisions)):
             taken, alt = c.decisions[k]
             if alt:
@@ -110,7 +112,7 @@ def explore(job: Job, timeout_ms=10000, max_paths=50000):
     return dict(job=job.id, props=list(job.props), functions=list(job.functions), paths=paths,
                 clauses=list(clauses.values()), covers=sorted(covers), missing_covers=missing,
                 engine_error=engine_error, unknown_feasibility=unknown_feas,
-                wall_s=time.time() - t0, meta=job.meta)
+                wall_s=time.time() - t0, meta=job.meta, unit_events=sorted(events, key=str))
 
 
 # --------------------------------------------------------------------------
